@@ -758,14 +758,14 @@ func (t c06Traits) name() string {
 	switch {
 	case t.empty:
 		return "empty-pattern"
-	case t.endsMultibyte:
-		return "pattern-ends-with-multibyte-rune"
-	case t.endsEscDollar:
-		return "pattern-ends-with-escaped-dollar"
 	case t.escBracketCaret:
 		return "caret-after-escaped-bracket"
 	case t.leading && t.topAlt:
 		return "leading-caret-top-level-alternation"
+	case t.endsMultibyte:
+		return "pattern-ends-with-multibyte-rune"
+	case t.endsEscDollar:
+		return "pattern-ends-with-escaped-dollar"
 	case t.interior:
 		return "interior-anchor-char"
 	case t.leading || t.trailing:
